@@ -2,8 +2,10 @@
 // Every op is one self-contained line (F = 4 | 6 | h, addresses as hex of their bytes in text order):
 //   cmp F a b            -> lt= gt= le= ge= eq= ne= hash=<std::hash(a) or -> heq=<hash(a)==hash(b)>
 //   bit F a b            -> and= or= not=
-//   txt F <hex of text> [ref]   -> ok <addr> | throw invalid_address      (constructor from std::string)
-//   fmt F a [ref]        -> s=<hex of to_string()> back=<addr parsed back from that text | throw ..>
+//   txt F <hex of text>  -> ok <addr> | throw invalid_address      (constructor from std::string AND from const char*;
+//                           `ctor-differs …` when the two disagree)
+//   fmt F a              -> s=<hex of to_string()> back=<addr parsed back from that text | throw ..>
+//                           (`stream-differs` when operator<< prints something else than to_string())
 //   pfx F a p [cap]      -> mask= first= last= it= n= ov= f= l= h=        (a / p)
 //   msk F a m [cap]      -> first= last= it= n= ov= f= l= h=              (AddressRange::from_mask(a, m))
 //   rng F first last oh [cap] -> it= n= ov= f= l= h=  | throw invalid_range    (AddressRange(first, last, oh))
@@ -107,8 +109,11 @@ template <typename A> std::string run(const std::vector<std::string>& w) {
     }
     if (op == "txt" && w.size() >= 3) {
         std::string s = text_of(w[2]);
-        A a(s);
-        return "ok " + hx(a);
+        std::string r1, r2;
+        try { r1 = "ok " + hx(A(s)); } catch (const std::exception& e) { r1 = "throw " + exc_name(e); }
+        try { r2 = "ok " + hx(A(s.c_str())); } catch (const std::exception& e) { r2 = "throw " + exc_name(e); }
+        if (r1 != r2) return "ctor-differs string=" + r1.substr(r1.find(' ') + 1) + " cstr=" + r2.substr(r2.find(' ') + 1);
+        return r1;
     }
     if (op == "fmt" && w.size() >= 3) {
         A a = addr_of<A>(w[2]);
